@@ -136,7 +136,7 @@ fn run(r: &Rec) -> Ran {
                 (vs, try_op(|| {
                     let (o, same) = twice(|fill| {
                         let lo = h.glwe_out();
-                        let need = m.cmux_tmp_bytes(&lo, &t, &gp) + GLWE::<Vec<u8>>::bytes_of_from_infos(&lo) + 256;
+                        let need = m.cmux_tmp_bytes(&lo, &t, &gp) + if code == 4012 { GLWE::<Vec<u8>>::bytes_of_from_infos(&lo) + 64 } else { 0 };
                         let mut sc = scratch(need, fill);
                         match code {
                             4010 => { let mut res = GLWE::alloc_from_infos(&lo); res.data_mut().data.iter_mut().for_each(|b| *b = 0x5a);
@@ -147,7 +147,7 @@ fn run(r: &Rec) -> Ran {
                             _ => { let mut res = f.clone(); m.cmux_assign_neg(&mut res, &t, &gp, sc.borrow()); vec![glwe_dump(&res)] }
                         }
                     });
-                    if code == 4010 && h.dsize <= 2 { (vec![vec![same]], o) } else { let mut o = o; o.push(vec![same]); (o, vec![vec![1]]) }
+                    if code == 4010 { (vec![vec![same]], o) } else { let mut o = o; o.push(vec![same]); (o, vec![vec![1]]) }
                 }))
             }
             4020 => {
@@ -186,14 +186,14 @@ fn run(r: &Rec) -> Ran {
                                 let mut sc0 = setup(m.gglwe_encrypt_sk_tmp_bytes(&lg));
                                 m.gglwe_encrypt_sk(&mut a, &pt, &skp, &noise_src, &mut src(h.seed ^ 0x81), &mut src(h.seed ^ 0x82), sc0.borrow());
                                 let mut res = GGSW::alloc_from_infos(&lres);
-                                let mut sc = scratch(2 * m.ggsw_from_gglwe_tmp_bytes(&lres, &lt) + (1 << 16), fill);
+                                let mut sc = scratch(m.ggsw_from_gglwe_tmp_bytes(&lres, &lt), fill);
                                 m.ggsw_from_gglwe(&mut res, &a, &tkp, sc.borrow());
                                 vec![ggsw_dump(&res, gn_)]
                             }
                             4022 => {
                                 let (mut gg, _gp) = ggsw_new(&m, &lres, gk, &sk, &m2, h.seed ^ 0x99);
                                 for row in 0..gn_ { for c in 1..=rank { gg.at_mut(row, c).data_mut().data.iter_mut().for_each(|b| *b = 0x5a); } }
-                                let mut sc = scratch(2 * m.ggsw_expand_rows_tmp_bytes(&lres, &lt) + (1 << 16), fill);
+                                let mut sc = scratch(m.ggsw_expand_rows_tmp_bytes(&lres, &lt), fill);
                                 m.ggsw_expand_row(&mut gg, &tkp, sc.borrow());
                                 vec![ggsw_dump(&gg, gn_)]
                             }
@@ -202,12 +202,12 @@ fn run(r: &Rec) -> Ran {
                                 let (_k, kp) = ksk_new(&m, &h2, &sk_src, &sk, h.seed ^ 0x77);
                                 if code == 4030 {
                                     let mut res = GGSW::alloc_from_infos(&lres);
-                                    let mut sc = scratch(2 * m.ggsw_keyswitch_tmp_bytes(&lres, &lsrc, &kp, &lt) + (1 << 16), fill);
+                                    let mut sc = scratch(m.ggsw_keyswitch_tmp_bytes(&lres, &lsrc, &kp, &lt), fill);
                                     m.ggsw_keyswitch(&mut res, &a, &kp, &tkp, sc.borrow());
                                     vec![ggsw_dump(&res, gn_)]
                                 } else {
                                     let mut res = a.clone();
-                                    let mut sc = scratch(2 * m.ggsw_keyswitch_tmp_bytes(&lsrc, &lsrc, &kp, &lt) + (1 << 16), fill);
+                                    let mut sc = scratch(m.ggsw_keyswitch_tmp_bytes(&lsrc, &lsrc, &kp, &lt), fill);
                                     m.ggsw_keyswitch_assign(&mut res, &kp, &tkp, sc.borrow());
                                     vec![ggsw_dump(&res, gn_)]
                                 }
@@ -217,12 +217,12 @@ fn run(r: &Rec) -> Ran {
                                 let (_k, kp) = atk_new(&m, &h2, &sk, p, h.seed ^ 0x77);
                                 if code == 4032 {
                                     let mut res = GGSW::alloc_from_infos(&lres);
-                                    let mut sc = scratch(2 * m.ggsw_automorphism_tmp_bytes(&lres, &lsrc, &kp, &lt) + (1 << 16), fill);
+                                    let mut sc = scratch(m.ggsw_automorphism_tmp_bytes(&lres, &lsrc, &kp, &lt), fill);
                                     m.ggsw_automorphism(&mut res, &a, &kp, &tkp, sc.borrow());
                                     vec![ggsw_dump(&res, gn_)]
                                 } else {
                                     let mut res = a.clone();
-                                    let mut sc = scratch(2 * m.ggsw_automorphism_tmp_bytes(&lsrc, &lsrc, &kp, &lt) + (1 << 16), fill);
+                                    let mut sc = scratch(m.ggsw_automorphism_tmp_bytes(&lsrc, &lsrc, &kp, &lt), fill);
                                     m.ggsw_automorphism_assign(&mut res, &kp, &tkp, sc.borrow());
                                     vec![ggsw_dump(&res, gn_)]
                                 }
